@@ -35,8 +35,8 @@ theorem addRaw_post (K : Kern) (pool : Pool) (s : State) (a0 a1 : Rat) (lo up : 
   all_goals first
     | exact Or.inl ⟨_, rfl, rfl⟩
     | skip
-  rename_i h1 _ _ h2
-  exact Or.inr ⟨⟨_, rfl⟩, has_debit h2 _ (Or.inl (has_debit h1 _ (Or.inr rfl))), has_debit h2 _ (Or.inr rfl)⟩
+  rename_i h2
+  exact Or.inr ⟨⟨_, rfl⟩, has_debit2 h2 _ (Or.inr (Or.inl rfl)), has_debit2 h2 _ (Or.inr (Or.inr rfl))⟩
 
 theorem addRaw_atomic (K : Kern) (pool : Pool) (s : State) (a0 a1 : Rat) (lo up : Int) (sq : Option Nat) :
     Atomic (addRaw K pool s a0 a1 lo up sq) s := by
